@@ -329,6 +329,51 @@ fn check_dec_any(c: &DecCase, info: &mut Info) -> Result<(), String> {
     }
 }
 
+/// related byte strings decoded back to back (a cache keyed by part of the input, e.g. the x bytes
+/// without the flags, needs exactly this)
+#[derive(Clone, Debug, Serialize, Deserialize, PartialEq, Eq, Hash)]
+pub enum Then {
+    Same,
+    Edit(Edit),
+    /// the same base point / bytes recipe in another format of the same group
+    OtherForm,
+}
+
+#[derive(Clone, Debug, Serialize, Deserialize, PartialEq, Eq, Hash)]
+pub struct DecSeq {
+    pub base: DecCase,
+    pub then: Vec<Then>,
+}
+
+fn dec_seq_strategy() -> BoxedStrategy<DecSeq> {
+    let then = prop_oneof![
+        1 => Just(Then::Same),
+        3 => Just(Then::Edit(Edit::FlipSort)),
+        3 => (0u8..8).prop_map(|f| Then::Edit(Edit::Flags(f))),
+        3 => edit_strategy().prop_map(Then::Edit),
+        2 => Just(Then::OtherForm),
+    ];
+    (dec_case_strategy(), proptest::collection::vec(then, 1..5)).prop_map(|(base, then)| DecSeq { base, then }).boxed()
+}
+
+fn check_dec_seq(c: &DecSeq, info: &mut Info) -> Result<(), String> {
+    let mut cur = c.base.clone();
+    let mut tmp = Info::default();
+    check_dec_any(&cur, &mut tmp)?;
+    for t in &c.then {
+        match t {
+            Then::Same => {}
+            Then::Edit(e) => cur.edits.push(e.clone()),
+            Then::OtherForm => cur.fmt = (cur.fmt & 2) | (1 - (cur.fmt & 1)),
+        }
+        let mut tmp = Info::default();
+        check_dec_any(&cur, &mut tmp).map_err(|m| format!("after decoding a related string first: {}", m))?;
+    }
+    info.nt();
+    info.class(format!("strings={}", 1 + c.then.len()));
+    Ok(())
+}
+
 pub fn def() -> PropDef {
     PropDef {
         id: "C04",
@@ -336,6 +381,7 @@ pub fn def() -> PropDef {
         needs_pairing: false,
         subs: vec![
             Box::new(Sub { name: "decoders", rule: "four decoders, checked and unchecked, vs model decoder (accepted point or first failing stage)", quick: 24_000, thorough: 250_000, strategy: || boxed(dec_case_strategy()), check: check_dec_any }),
+            Box::new(Sub { name: "related-strings", rule: "a byte string followed back to back by 1..4 related strings (sort flag flipped, other flag combination, further edit, the same point in the other form, the same again), each compared with the model decoder", quick: 3_000, thorough: 80_000, strategy: || boxed(dec_seq_strategy()), check: check_dec_seq }),
             super::corpus_sub_decode(),
         ],
         assumptions: {
